@@ -26,8 +26,9 @@ def config(rng, tier):
         "fault_rate": rng.choice([0.0, 0.1, 0.25, 0.4]),
         "derive": rng.choice([0.0, 0.05, 0.15]),
         "two": rng.random() < 0.3,
-        "dup_points": rng.random() < 0.3,  # point tiers may start with several points at one time
-        "maxn": rng.choice([8] * 32 + [24, 24, 24, 40, 40, 120, 120, 320]),
+        "dup_points": rng.random() < 0.3,
+        "ulps": rng.random() < 0.3,  # decimal regime: boundaries also nudged by one ulp / 1e-9 (exact model)  # point tiers may start with several points at one time
+        "maxn": rng.choice([8] * 30 + [24, 24, 24, 40, 40, 120, 120, 320, 320, 640]),
     }
 
 
